@@ -45,5 +45,6 @@ func profiles(rng *rand.Rand, tier string) []c04.Profile {
 	for i, k := 0, 2+n/60; i < k; i++ {
 		ps = append(ps, c04.Profile{Steps: 8 + rng.Intn(6), DeleteBias: 3, ForkBias: 0.8, TinyCache: true, TxHeavy: true, Exhaust: i%2 == 1})
 	}
-	return ps
+	// failure-injection family (c04/inject.go): every application hook / publication failing once at every step kind
+	return append(ps, c04.InjectProfiles(rng, tier)...)
 }
